@@ -172,6 +172,20 @@ def run(loader, R, tier):
                     "comparison must return exactly -1, 0 or 1")
     R.instance("R16.6", "PrinterBasicCmp", sample={
         "tests_equal_minus_one": tests_minus_one})
+    for f in pbc:
+        hs = [n for n in walk(f["body"]) if n.get("k") == "mcall"
+              and n.get("n") in ("hash", "__hash__")]
+        R.instance("R16.6", short(f.get("cls") or "") + ":equivalence",
+                   sample={"consults_hash": bool(hs)})
+        if hs:
+            R.violation(
+                "R16.6", short(f.get("cls") or "") + ":hash",
+                prog.loc(f, hs[0].get("l")),
+                "%s decides that two terms are the same key from their "
+                "hashes: two different terms with colliding hashes (e.g. "
+                "exponents that agree modulo 2**64) become one key of the "
+                "sorted container and one of them disappears from the "
+                "printed expression" % short(f.get("cls") or ""))
     if tests_minus_one:
         from rules.c02 import range_check
 
